@@ -240,7 +240,44 @@ fn word(rng: &mut Rng, f: &FontGen, len: usize, hyphen_end: bool, inner_space: b
     if hyphen_end {
         if let Some(h) = f.hyphen {
             enc(h, simple, &mut out);
+            // "--" at the end of a run: chained hyphen fusion behind empty appends
+            if rng.chance(1, 5) {
+                enc(h, simple, &mut out);
+            }
         }
+    }
+    // rare: bytes the reference semantics gives no character to (the oracle answers `na`, the
+    // model must still agree): control codes and CR/LF runs for the sanitiser, undefined WinAnsi
+    // codes, a stray byte that throws a 2-byte code string out of step
+    if rng.chance(1, 30) {
+        let junk: &[u8] = if simple {
+            *rng.pick(&[
+                &[0x00u8][..],
+                &[0x00, 0x03],
+                &[0x03],
+                &[0x09],
+                &[0x0A],
+                &[0x0D],
+                &[0x0D, 0x0A],
+                &[0x0D, 0x01, 0x0A],
+                &[0x0D, 0x0D],
+                &[0x1F],
+                &[0x7F],
+                &[0x20, 0x20, 0x20],
+                &[0x09, 0x20],
+            ])
+        } else {
+            *rng.pick(&[&[0x41u8][..], &[0x00], &[0x7F], &[0x01, 0x01, 0x01], &[0x00, 0x00]])
+        };
+        // only ASCII bytes may reach the name-based fallback of `decode_text` (`from_utf8_lossy` on
+        // other bytes is outside the model): a piece of a `TJ` array can consist of the junk alone
+        let junk: &[u8] = if out.iter().all(|b| *b < 0x80) { junk } else { &[] };
+        let unit = if simple { 1 } else { 2 };
+        let slots = out.len() / unit + 1;
+        let at = unit * rng.below(slots as u64) as usize;
+        let tail = out.split_off(at);
+        out.extend_from_slice(junk);
+        out.extend_from_slice(&tail);
     }
     out
 }
@@ -396,7 +433,8 @@ fn gen_doc(rng: &mut Rng, style: u64, big: bool) -> (String, String) {
         let hyph = if style == 7 { 45 } else { 6 };
         let mut cx = Ctx { rng, fonts: &fonts, fmap: fmap.clone(), hyph };
         let lines = if big { 4 + cx.rng.below(10) as usize } else { 1 + cx.rng.below(5) as usize };
-        let size = *cx.rng.pick(&[8i64, 10, 12, 12, 14, 24]);
+        // zero and negative sizes are legal operands of Tf: every size-relative threshold collapses
+        let size = if cx.rng.chance(1, 30) { *cx.rng.pick(&[0i64, -12, 1]) } else { *cx.rng.pick(&[8i64, 10, 12, 12, 14, 24]) };
         let lead = match style {
             1 => cx.rng.range(0, 6),
             _ => size + cx.rng.range(1, 8),
@@ -649,7 +687,7 @@ fn gen_qnest(n: usize, opts: &str) -> String {
 }
 
 fn gen_malformed(rng: &mut Rng) -> (String, String) {
-    let body = match rng.below(9) {
+    let body = match rng.below(14) {
         0 => "s0 0/-/-/Tf:0:12,Tj:414243,BT,Td:50:700,Tj:444546,ET,Tj:47".to_string(), // shows outside BT
         1 => "s0 0/-/-/BT,Tf:0:12,Td:50:700,Q,Q,Tj:4142,ET,ET,EMC,BT,Td:50:600,Tj:43,ET".to_string(),
         2 => "s0 0/-/-/BT,Td:50:700,Tj:414243,ET".to_string(), // no font selected
@@ -658,6 +696,11 @@ fn gen_malformed(rng: &mut Rng) -> (String, String) {
         5 => "s0 0/-/-/BT,Tf:0:12,Td:50:700,BMC:Artifact,Tj:4142,ET".to_string(), // scope never closed
         6 => "t41.5.- 0/-/-/BT,Tf:0:12,Td:50:700,Tj:00010002000000070001,ET".to_string(), // unmapped codes
         7 => "s0 0/-/-/BT,Tf:0:12,Td:50:700,Tj:-,TJ:,Tq:-,Tj:41,TJ:n-300;n200,ET".to_string(), // empty strings/arrays
+        9 => "s0 0/-/-/BT,Tf:0:12,Td:50:700,Tj:41,BT,Tj:42,ET,Tj:43,ET,BT,Td:50:600,Tj:44,ET".to_string(), // BT inside BT
+        10 => "s0 0/1/-/BT,Tf:0:12,Td:50:700,BDC:Span:-:0058,Tj:41,ET,Do:0,BT,Td:50:600,Tj:44,ET 0/-/-/BT,Tf:0:12,Td:50:650,Tj:42,ET,EMC,BT,Td:50:640,Tj:43,ET".to_string(), // a form closes its caller's /ActualText scope
+        11 => "s0;s4 0.1/1/-/q,q,BT,Tf:1:12,Td:50:700,Tj:41,ET,Do:0,Q,BT,Td:50:600,Tj:42,ET,Q,Q,Q,BT,Td:50:500,Tj:43,ET 1.0/-/-/Q,Q,BT,Td:10:650,Tj:44,Tf:0:9,Tj:45,ET,q,q,q".to_string(), // a form pops more than it pushed, leaves saves open
+        12 => "s0 0/1/-/BMC:Artifact,Do:0,EMC,BT,Tf:0:12,Td:50:600,Tj:42,ET 0/-/-/BT,Tf:0:12,Td:50:650,Tj:41,ET".to_string(), // a form painted inside an artifact
+        13 => "t41.5.0201=+0202=0020 0/-/-/BT,Tf:0:12,Td:50:700,Tj:000102010002,Tj:0201,Tj:02020202,ET".to_string(), // bfchar with an empty destination, an all-space run
         _ => "t41.5.- 0/-/-/BT,Tf:0:12,Td:50:700,Tj:000100,Tj:0002,ET".to_string(), // odd-length code string
     };
     (format!("c11 {} {}", opts_string(rng, None), body), "malformed".to_string())
